@@ -51,6 +51,7 @@ def gen(rng, i):
             "cancel_fn": rng.choice([None, None, "true", "false", "raise"]),
             "poll_raise": rng.choice([0, 0, 0, 1, 2, 3]), "poll_raise_after": rng.random() < 0.5,
             "poll_dur": rng.choice([0, 0, 0, 40]), "poll_mutates": rng.random() < 0.3,
+            "cancel_dur": rng.choice([0, 0, 0, 120, 300]),
             "notify": rng.sample([120, 260, 410, 900], rng.choice([0, 0, 1, 2])),
             "interval": rng.choice([500, 500, 800]), "horizon": 4000, "workers": rng.choice([1, 2, 3])}
 
@@ -82,6 +83,17 @@ def run(ck):
              "poll_dur": 40, "notify": [], "interval": 500, "horizon": 3000}
         tasks.append({"scen": "poll", "params": p, "strat": ["random", rng.randrange(10 ** 9), 0.5],
                       "gran": "line" if i % 4 == 0 else "sync", "facts": {"cancel_fn": None, "poll_raise": 2}})
+    # a client's cancel function takes its time for ONE polled future; meanwhile another future becomes eligible and
+    # notify() is called: neither waits for the cancel function (which concerns neither)
+    for cfn in ("false", "true", "raise"):
+        for fl in ("manual", "pool"):
+            pc = {"flavour": fl, "jobs": [{"S": 0, "D": 100, "fail": False, "y": 0, "yexc": False, "K": 250, "C": True},
+                                          {"S": 0, "D": 300, "fail": False, "y": 1, "yexc": False, "K": None, "C": True}],
+                  "none_job": None, "cancel_fn": cfn, "cancel_dur": 300, "poll_raise": 0, "poll_raise_after": False, "poll_dur": 0,
+                  "poll_mutates": False, "notify": [400], "interval": 800, "horizon": 4000, "workers": 2}
+            for k in range(2 if quick else 8):
+                tasks.append({"scen": "poll", "params": pc, "strat": ["random", rng.randrange(10 ** 9), 0.5],
+                              "gran": "line" if k % 2 else "sync", "facts": {"directed": True}})
     ck.run_and_validate(tasks, TRACE)
     # directed two-preemption sweeps (line granularity) around registration, the descriptor snapshot and cancel
     from .. import core as _core
